@@ -232,7 +232,78 @@ def replay_walk(g, walk, tid, wcfg, cfgline, tail=0):
                     diff.append(('closes', mcl, o['closes']))
                 if diff:
                     drift = {'tid': tid, 'step': steps, 'ev': ev, 'diff': diff[:4], 'st': g.states[u]['st']}
+    if drift is not None:
+        drift['events'] = [{k: ln.get(k) for k in ('k', 'c', 'm', 'h', 't')} for ln in rec.lines if ln.get('k') != 'cfg']
     return rec.lines, drift, steps, covered
+
+
+def enabled_events(w):
+    """Environment events possible in the real world right now (small alphabet, for drift continuations)."""
+    evs = []
+    due = w.due_calls()
+    if due:
+        evs.append({'k': 'firedue', 'c': 0})
+    else:
+        evs.append({'k': 'tick', 'c': 0})
+    for idx in w.alive:
+        k = W.connectors[idx - 1]
+        if k.state == 'connecting':
+            evs.append({'k': 'connOk', 'c': idx})
+            evs.append({'k': 'connRefused', 'c': idx})
+        elif k.state == 'connected':
+            evs.append({'k': 'connLost', 'c': idx})
+            if not k.transport.disconnecting:
+                for m, h in (('OPEN', 90), ('KA', 0), ('UPD', 0), ('BADTYPE', 0)):
+                    evs.append({'k': 'msg', 'c': idx, 'm': m, 'h': h, 't': ''})
+    evs.append({'k': 'stop', 'c': 0})
+    evs.append({'k': 'start', 'c': 0})
+    return evs
+
+
+def explore_from(prefix, wcfg, cfgline, tid0, depth=3, cap=60):
+    """Drift continuation (DESIGN.md 2.3): from the point where model and code disagreed, run every sequence of
+    enabled environment events up to `depth` on the real agent (re-executed from boot), recording every trace.
+    Breadth first, at most `cap` executions."""
+    out = []
+    frontier = [[]]
+    n = 0
+    for d in range(depth):
+        nxt = []
+        for cont in frontier:
+            w = World(wcfg)
+            rec = Recorder(w, tid0 + n, cfgline)
+            ok = True
+            for e in prefix + cont:
+                e = {k: v for k, v in e.items() if v is not None}
+                if not w.can(e):
+                    ok = False
+                    break
+                rec.step(e, e.get('c', 0))
+            if not ok:
+                continue
+            evs = enabled_events(w)
+            # execute each one-step extension in a fresh world only at the next level; record this level's last step
+            for e in evs:
+                nxt.append(cont + [e])
+            if cont:
+                out.append(rec.lines)
+                n += 1
+                if n >= cap:
+                    return out
+        frontier = nxt
+    for cont in frontier:
+        if n >= cap:
+            break
+        w = World(wcfg)
+        rec = Recorder(w, tid0 + n, cfgline)
+        for e in prefix + cont:
+            e = {k: v for k, v in e.items() if v is not None}
+            if not w.can(e):
+                break
+            rec.step(e, e.get('c', 0))
+        out.append(rec.lines)
+        n += 1
+    return out
 
 
 def dumps(line):
